@@ -20,13 +20,16 @@ RULE = ('models with orthogonal stacked axes (aligned / other handedness / '
         '{1,2,5} thorough. non-trivial = every (model, pipeline, steps, point); '
         'distinct = the same tuples')
 ASSUMPTIONS = [
-    'finite differences are a numerical oracle: band 1e-4(1+|g|)',
+    'finite differences are a numerical oracle: band 1e-4(1+|g|); a '
+    'coordinate is compared only where central differences at h = 1e-5, 1e-6, '
+    '1e-7 agree to 1e-5 (smoothness at the stencil scale); the numbers of '
+    'compared / skipped coordinates are in the evidence',
     'regular points are >= 0.2 rad / 5 cm away from every limit and contact',
 ]
 
 
 def _models(tier, seed):
-  combos = [((-1,), ('H',), True), ((-1,), ('SH',), True),
+  combos = [((-1,), ('F',), True), ((-1,), ('H',), True), ((-1,), ('SH',), True),
             ((-1, 0), ('F', 'H'), True), ((-1,), ('HHH',), True),
             ((-1, 0), ('SS', 'H'), True), ((-1, 0), ('F', 'SSH'), True),
             ((-1,), ('HS',), False), ((-1,), ('HSH',), False),
@@ -52,7 +55,13 @@ def _models(tier, seed):
               for b in range(len(l['kind']))]
     s['actuators'] = [dict(joint=list(joints[-1]), kind='motor', gear=2.0,
                            ctrlrange=[-1.0, 0.7]),
-                      dict(joint=list(joints[0]), kind='position', kp=4.0)]
+                      dict(joint=list(joints[0]), kind='position', kp=4.0)
+                      ] if joints else []
+    if not joints:
+      # a lone free body: a sphere at the body origin, so that a body at rest
+      # keeps EXACTLY zero angular velocity (the 0/0 case of the integrators)
+      links[0]['geom'] = dict(type='sphere', size=[0.1], pos=None, quat=None)
+      links[0]['quat'] = None
     s['option'] = dict(timestep=0.002)
     if links[0]['kind'] == 'F':
       for l in links:
@@ -202,20 +211,33 @@ def run_task(task):
                                gq[i].tolist(), gd[i].tolist(), gc[i].tolist()),
           case=dict(case0, point=pt[0])))
       return res
-  # central differences on the regular set
-  h = 1e-6
+  # central differences on the regular set, at three step sizes: a coordinate
+  # is compared only where the three differences agree with each other (the
+  # function is smooth at that scale; a solver or contact switch within the
+  # stencil makes them disagree wildly and says nothing about the gradient)
+  hs = (1e-5, 1e-6, 1e-7)
   for i in range(len(sing), len(pts)):
     q0, d0, c0 = pts[i][1], pts[i][2], pts[i][3]
     z = np.concatenate([q0, d0, c0])
     m = len(z)
-    Z = np.concatenate([z + h * np.eye(m), z - h * np.eye(m)])
-    B = 1 << (len(Z) - 1).bit_length()
-    Zp = pipes.pad([Z], max(B, 16))[0]
-    vals = np.asarray(f(s, Zp[:, :nq], Zp[:, nq:nq + nv], Zp[:, nq + nv:],
-                        jp.asarray(w)))[:len(Z)]
-    fd = (vals[:m] - vals[m:]) / (2 * h)
+    fds = []
+    for h in hs:
+      Z = np.concatenate([z + h * np.eye(m), z - h * np.eye(m)])
+      B = 1 << (len(Z) - 1).bit_length()
+      Zp = pipes.pad([Z], max(B, 16))[0]
+      vals = np.asarray(f(s, Zp[:, :nq], Zp[:, nq:nq + nv], Zp[:, nq + nv:],
+                          jp.asarray(w)))[:len(Z)]
+      fds.append((vals[:m] - vals[m:]) / (2 * h))
+    fds = np.array(fds)
     an = np.concatenate([gq[i], gd[i], gc[i]])
-    err = np.abs(an - fd) / (1 + np.abs(an))
+    spread = fds.max(0) - fds.min(0)
+    smooth = spread <= 1e-5 * (1 + np.abs(fds[1]))
+    res['extra']['fd_coordinates_compared'] = res['extra'].get(
+        'fd_coordinates_compared', 0) + int(smooth.sum())
+    res['extra']['fd_coordinates_nonsmooth'] = res['extra'].get(
+        'fd_coordinates_nonsmooth', 0) + int((~smooth).sum())
+    fd = fds[1]
+    err = np.where(smooth, np.abs(an - fd) / (1 + np.abs(an)), 0.0)
     res['evaluations'] += 1
     res['nontrivial'] += 1
     if not err.max() <= 1e-4:
@@ -223,9 +245,9 @@ def run_task(task):
       res['violations'].append(dict(
           key='C03:gradient-vs-finite-difference:%s' % pipe,
           what='%s, %d step(s): d loss/d input[%d] = %.8g but central '
-          'difference %.8g at "%s" (kinds=%s)' % (
-              pipe, n, k, an[k], fd[k], pts[i][0], [l['kind'] for l in
-                                                    spec['links']]),
+          'differences (h=1e-5,1e-6,1e-7) %s at "%s" (kinds=%s)' % (
+              pipe, n, k, an[k], fds[:, k].tolist(), pts[i][0],
+              [l['kind'] for l in spec['links']]),
           case=dict(case0, point=pts[i][0])))
       return res
   res['samples'].append(dict(model=phys.describe(spec), pipe=pipe, steps=n,
